@@ -252,6 +252,39 @@ def inline_member_calls(fn, relpath, cls, skip=()):
     return g, done
 
 
+def inline_index_helpers(fn, relpath, cls):
+    """Refactoring tolerance: `std::vector<Index> ind = helper(a1, a2, a3, ...);` where `helper` is a member function of the same class whose whole body is
+    `std::vector<Index> ind; <statements without return>; return ind;` (e.g. the rule switch of GenEigsBase moved into a function) is replaced by the helper's body with the
+    parameters substituted textually by the arguments (arguments must be side-effect-free: identifiers, member accesses, `.data()`, literals).  Returns (Func, [names])."""
+    import copy
+    done = []
+    body = fn.body
+    for m in list(re.finditer(r"std::vector<Index>\s+ind\s*=\s*(\w+)\(([^;]*)\);", body)):
+        nm = m.group(1)
+        try:
+            h = locate(relpath, nm, cls=cls)
+        except ExtractionBreak:
+            continue
+        hb = h.body.strip()
+        if not re.match(r"^std::vector<Index>\s+ind\s*;", hb) or not re.search(r"return\s+ind\s*;\s*$", hb) or len(re.findall(r"\breturn\b", hb)) != 1:
+            continue
+        args = [a.strip() for a in split_top(m.group(2))]
+        pars = [a.strip() for a in split_top(h.params)] if h.params.strip() else []
+        if len(args) != len(pars) or any(not re.match(r"^[\w.>\-]+(?:\(\))?$|^\"[^\"]*\"$", a) for a in args):
+            raise ExtractionBreak("helper %s::%s: call with arguments that cannot be substituted textually: %r" % (cls, nm, args))
+        inner = re.sub(r"return\s+ind\s*;\s*$", "", hb)
+        for par, a in zip(pars, args):
+            pn = re.sub(r"^.*?(\w+)$", r"\1", par)
+            inner = re.sub(r"(?<![\w.>])%s\b" % re.escape(pn), lambda _m, a=a: a, inner)
+        body = body.replace(m.group(0), " ".join(inner.split("\n")), 1)
+        done.append(nm)
+    if not done:
+        return fn, done
+    g = copy.copy(fn)
+    g.body = body
+    return g, done
+
+
 def members(relpath, cls, key=None, cls_ordinal=0):
     """Names of data members declared directly in the class body (depth 0), by regex on
     declarations `Type name;` / `Type name = init;`."""
